@@ -521,18 +521,97 @@ func c10r3(c *core.Ctx) {
 		return
 	}
 	stored := store.Val
+	// is there a comparison in the function that is made on the stored variable itself? Only then may the walk's specialised form of it
+	// (the variable replaced by what it holds on the edge the walk came through) count: a comparison made on the value *before* the clamp
+	// is a comparison with one of the things the stored variable can hold, not with what is stored
+	comparesStoredItself := false
+	core.Instrs(f, func(i ssa.Instruction) {
+		if bo, ok := i.(*ssa.BinOp); ok && (bo.Op == token.EQL || bo.Op == token.NEQ) {
+			cur := func(v ssa.Value) bool {
+				b, ok := core.FieldLoad(v, tChar, "Value")
+				return ok && b == ssa.Value(f.Params[0])
+			}
+			if (cur(bo.X) && bo.Y == stored) || (cur(bo.Y) && bo.X == stored) {
+				comparesStoredItself = true
+			}
+		}
+	})
 	changed := core.CmpFact(func(x, y ssa.Value) (bool, bool) {
 		isCur := func(v ssa.Value) bool {
 			b, ok := core.FieldLoad(v, tChar, "Value")
 			return ok && b == ssa.Value(f.Params[0])
 		}
-		if (isCur(x) && y == stored) || (isCur(y) && x == stored) {
+		// the stored value, or — where the walk knows through which edge it came — the value the stored variable holds on that edge
+		isStored := func(v ssa.Value) bool {
+			if v == stored {
+				return true
+			}
+			if ph, ok := stored.(*ssa.Phi); ok && comparesStoredItself {
+				for _, e := range ph.Edges {
+					if e == v {
+						return true
+					}
+				}
+			}
+			return false
+		}
+		if (isCur(x) && isStored(y)) || (isCur(y) && isStored(x)) {
 			return false, true
 		}
 		return false, false
 	})
 	force := core.TrueFact(func(v ssa.Value) bool { _, ok := core.FieldLoad(v, tChar, "updateOnSameValue"); return ok })
-	fact := core.AnyFact(changed, force)
+	// the comparison made in a helper: a module function of two interface parameters whose every result is the constant false or
+	// `a == b` of its parameters answers "the same" only for equal values — its false edge is "changed"
+	isEquality := func(g *ssa.Function) bool {
+		if g == nil || len(g.Params) != 2 || g.Signature.Results().Len() != 1 || len(g.Blocks) == 0 {
+			return false
+		}
+		ok, n := true, 0
+		core.Instrs(g, func(i ssa.Instruction) {
+			r, isR := i.(*ssa.Return)
+			if !isR {
+				return
+			}
+			for _, sv := range core.Sources(r.Results[0]) {
+				n++
+				if k, isK := sv.(*ssa.Const); isK && k.Value != nil && k.Value.ExactString() == "false" {
+					continue
+				}
+				if bo, isB := sv.(*ssa.BinOp); isB && bo.Op == token.EQL &&
+					((bo.X == ssa.Value(g.Params[0]) && bo.Y == ssa.Value(g.Params[1])) || (bo.X == ssa.Value(g.Params[1]) && bo.Y == ssa.Value(g.Params[0]))) {
+					continue
+				}
+				ok = false
+			}
+		})
+		return ok && n > 0
+	}
+	changedByHelper := core.CondFact(func(cond ssa.Value) (bool, bool) {
+		call, ok := cond.(*ssa.Call)
+		if !ok || call.Call.IsInvoke() || !core.InModule(call.Call.StaticCallee()) || !isEquality(call.Call.StaticCallee()) {
+			return false, false
+		}
+		a := call.Call.Args
+		isCur := func(v ssa.Value) bool {
+			b, ok := core.FieldLoad(v, tChar, "Value")
+			return ok && b == ssa.Value(f.Params[0])
+		}
+		isSt := func(v ssa.Value) bool { return v == stored }
+		if len(a) == 2 && ((isCur(a[0]) && isSt(a[1])) || (isCur(a[1]) && isSt(a[0]))) {
+			return false, true
+		}
+		return false, false
+	})
+	// values that cannot be compared (arrays and objects written to a characteristic without a known format) are never "the same":
+	// the path passes the false edge of a reflect Comparable() test
+	uncomparable := core.CondFact(func(cond ssa.Value) (bool, bool) {
+		if call, ok := cond.(*ssa.Call); ok && call.Call.IsInvoke() && call.Call.Method.Name() == "Comparable" {
+			return false, true
+		}
+		return false, false
+	})
+	fact := core.AnyFact(changed, changedByHelper, force, uncomparable)
 	// callback fan-outs: calls that receive one of the callback slices, or dynamic calls of their elements
 	var fanouts []ssa.Instruction
 	core.Instrs(f, func(i ssa.Instruction) {
